@@ -722,6 +722,9 @@ def create_ops(w, stride, salt):
     if ds:
         ops.append(("sf-dir", ["-sf", os.path.join(R, ds[0]), "-h", "md5"], "abs", None))
         ops.append(("sf-dir-and-file", ["-sf", os.path.join(R, ds[0])] + (["-sf", os.path.join(R, f0)] if f0 else []), "abs", None))
+        ops.append(("sf-dir-rel-first", ["-sf", ds[0], "-h", "md5"], "dot", None))
+        ops.append(("sf-dir-rel-last", ["-sf", ds[-1], "-h", "md5"], "dot", None))
+        ops.append(("sf-dir-rel-parent-cwd", ["-sf", os.path.join("t", ds[-1]) + os.sep, "-h", "c4"], "rel", None))
         ops.append(("subdir-as-root", ["-h", "md5"], "abs", os.path.join(R, ds[0])))
         ops.append(("subdir-as-root@dot", [], "dot", os.path.join(R, ds[-1])))
     for nr in W.nested_roots(R)[:2]:
